@@ -24,6 +24,7 @@ fn run_prop(id: &str, tier: Tier) -> Option<Report> {
         "C18" => props::c18::run(tier),
         "C19" => props::c19::run(tier),
         "C17" => props::c17::run(tier),
+        "C16" => props::c16::run(tier),
         _ => return None,
     })
 }
@@ -41,6 +42,7 @@ fn replay_case(case: &Value) -> Option<(bool, String)> {
         "c18" => props::c18::replay(case),
         "c19" => props::c19::replay(case),
         "c17" | "c17hsl" => props::c17::replay(case),
+        "c16yuv" | "c16curve" | "c16prim" | "c16xyb" | "c16hsl" => props::c16::replay(case),
         _ => return None,
     })
 }
